@@ -24,7 +24,7 @@ import (
 	"verifsim/probereg"
 )
 
-const query = `query($reps: [_Any!]!) { _entities(representations: $reps) { __typename ... on Acct { id label } ... on Prod { sku upc pack title } ... on Rev { seq body author { id label } } ... on Ship { code weight } ... on Bulk { id note } ... on BulkReq { id size } ... on Crate { id holder { id } holder_id } } }`
+const query = `query($reps: [_Any!]!) { _entities(representations: $reps) { __typename ... on Acct { id label } ... on Prod { sku upc pack title } ... on Rev { seq body author { id label } } ... on Ship { code weight } ... on Bulk { id note } ... on BulkReq { id size } ... on Crate { id holder { id } holder_id } ... on Parcel { id route { origin { address { city zip } } } } } }`
 
 // rep is one representation with what the oracle expects of it.
 type rep struct {
@@ -40,7 +40,10 @@ func str(s string) *string { return &s }
 
 func mkRep(t *core.Tape, i int) rep {
 	id := fmt.Sprintf("k%d", t.Choose(4, "keyval")) // few distinct keys: duplicates are frequent
-	switch t.Choose(8, "type") {
+	switch t.Choose(9, "type") {
+	case 8:
+		return rep{Type: "Parcel", JSON: map[string]any{"__typename": "Parcel", "id": id, "route": map[string]any{"origin": map[string]any{"address": map[string]any{"city": "c-" + id, "zip": "z-" + id}}}}, HookKey: "Parcel|" + id,
+			Expect: fmt.Sprintf(`{"__typename":"Parcel","id":%q,"route":{"origin":{"address":{"city":%q,"zip":%q}}}}`, id, "c-"+id, "z-"+id)}
 	case 7:
 		return rep{Type: "Crate", JSON: map[string]any{"__typename": "Crate", "id": id, "holder": map[string]any{"id": "h-" + id}, "holder_id": "hs-" + id}, HookKey: "Crate|" + id,
 			Expect: fmt.Sprintf(`{"__typename":"Crate","id":%q,"holder":{"id":%q},"holder_id":%q}`, id, "h-"+id, "hs-"+id)}
@@ -84,7 +87,7 @@ func mkRep(t *core.Tape, i int) rep {
 
 func keyField(typ string) string {
 	switch typ {
-	case "Acct", "Bulk", "BulkReq", "Crate":
+	case "Acct", "Bulk", "BulkReq", "Crate", "Parcel":
 		return "id"
 	case "Ship":
 		return "code"
@@ -192,6 +195,7 @@ func Run(rc *core.RunCtx) {
 	var hookCalls []string
 	var hmu sync.Mutex
 	var recovered atomic.Int32
+	honourCtx := t.Bool(1, 2, "honour-ctx")
 	hook := func(ctx context.Context, typ, key string) error {
 		k := typ + "|" + key
 		fk := k
@@ -204,6 +208,11 @@ func Run(rc *core.RunCtx) {
 		w.Logf("entity-call", k, "")
 		if _, killed := w.Park("ent", k, nil).(core.Kill); killed {
 			return errors.New("killed")
+		}
+		if honourCtx && ctx.Err() != nil {
+			// a context-aware resolver (database/sql, net/http, ...): nobody cancels the context
+			// of a request that is still being served, so this must never be taken
+			return ctx.Err()
 		}
 		switch resFault[fk] {
 		case "res-error":
